@@ -3,6 +3,14 @@
 import json, subprocess
 hook_commits = ["6e56b58"]
 checks = {
+ "C01": dict(cat="exploration", ref="DESIGN.md §4 C01",
+   text="Seeded search over (7 parsers x literal types x config flags) x (grammar-valid / mutated / arbitrary inputs) x (constructors, chunk sizes 1..16384) x (read plans down to 1 byte per read, boundary-targeted cuts, Interrupted bursts): the full transcript (items, clean end or error kind, line, column, message) must equal that of the same parser fed by a one-shot source. Evidence, not proof: partitions of an input are exponential, they are sampled.",
+   note="Differential against the same code under the trivial schedule; trusted: SimSource, std BufReader. A defect that shows under every schedule alike is by construction not reported here (that is C05/C06 territory).",
+   tech="deterministic simulation: real parsers over a simulated Read seam with seeded short reads / EINTR / chunk sizes, differential against the one-shot schedule"),
+ "C04": dict(cat="fault_enumeration", ref="DESIGN.md §4 C04",
+   text="For each sampled (parser, input, constructor, chunking) the fault offset k is enumerated over 0..=len: the source delivers k bytes, then returns a terminal io::Error. Oracle from the source's side: if the failing read was issued the final result must be exactly that I/O error (never clean end, never a syntax error), otherwise the result must equal the fault-free one; items handed out must be a prefix of the fault-free items. The fault axis is swept completely per case; cases are sampled.",
+   note="Trusted: SimSource's record of whether the failing read() was issued; the fault-free run of the same parser as reference.",
+   tech="deterministic simulation with fault injection: terminal read error injected at every offset of each sampled input, checked against the fault-free run"),
  "C02": dict(cat="exploration", ref="DESIGN.md §4 C02",
    text="Seeded search over operation histories x read schedules x constructors on the real DeferredReader, each checked after every operation against a Vec+cursor reference model (window content, position, mark, flags, parked error, request results). Evidence, not proof: histories are sampled, not enumerated.",
    note="Trusted: the simulated source's own log (bytes delivered), std's BufReader/Chain/Cursor, the reference model (~100 lines). Both native builds (debug assertions + overflow checks on / off).",
